@@ -159,7 +159,7 @@ def classify(fx, eng, fid, L, all_loops, iof):
     for b, t in LP.calls_in(body, L.blocks):
         c = t["callee"]
         p = callee_path(c)
-        if c.get("trait") in LP.READ_TRAITS or (p in fx.fns and LP.must_read(fx, p)):
+        if LP.consuming_call(t) or (p in fx.fns and LP.must_read(fx, p)):
             if all(body.dominates(b, la) for la in L.latches):
                 readers.append(b)
     consuming = bool(readers)
